@@ -92,6 +92,47 @@ func c12Matrix(s string) [][]int {
 	return m
 }
 
+// c12SharedWindows copies the rows into ONE backing array and returns them as windows of it.
+// layout 0: argument order; 1: the first operand first, the others in reverse order; 2: reverse
+// order; 3: rotated by one.  Two spare cells follow the last window.
+func c12SharedWindows(m [][]int, layout int) [][]int {
+	n := len(m)
+	order := make([]int, n)
+	for i := range order {
+		switch layout % 4 {
+		case 0:
+			order[i] = i
+		case 1:
+			if i == 0 {
+				order[i] = 0
+			} else {
+				order[i] = n - i
+			}
+		case 2:
+			order[i] = n - 1 - i
+		default:
+			order[i] = (i + 1) % n
+		}
+	}
+	total := 2
+	for _, r := range m {
+		total += len(r)
+	}
+	buf := make([]int, 0, total)
+	out := make([][]int, n)
+	for _, idx := range order {
+		start := len(buf)
+		buf = append(buf, m[idx]...)
+		out[idx] = buf[start:len(buf)]
+	}
+	buf = buf[:total]
+	buf[total-1], buf[total-2] = -424242, -424243
+	for i := range out { // full remaining capacity of the backing array
+		out[i] = out[i][:len(out[i]):cap(out[i])]
+	}
+	return out
+}
+
 func c12ShowMatrix(m [][]int) string {
 	items := make([]string, len(m))
 	for i, r := range m {
@@ -264,6 +305,11 @@ func (r *c12Runner) Do(op []string) string {
 		return "ok " + ints(res)
 	case "merge":
 		m := c12Matrix(op[1])
+		return ints(gogu.Merge(m[0], m[1:]...))
+	case "mergeshared":
+		// the operands are windows of one backing array, laid out in another order than the
+		// argument order, so that every operand has spare capacity in which later operands live
+		m := c12SharedWindows(c12Matrix(op[1]), atoi(op[2]))
 		return ints(gogu.Merge(m[0], m[1:]...))
 	case "drop":
 		return ints(gogu.Drop(parseInts(op[1]), atoi(op[2])))
@@ -581,7 +627,14 @@ func genC12(g *Gen) {
 	allSlices([]int{0, 1}, 2, func(s []int) { small = append(small, ints(s)) })
 	var merges []string
 	for l := 1; l <= 3; l++ {
-		seqs(small, l, func(t []string) { merges = append(merges, "merge "+plist(t)) })
+		seqs(small, l, func(t []string) {
+			merges = append(merges, "merge "+plist(t))
+			if l >= 2 {
+				for k := 0; k < 4; k++ {
+					merges = append(merges, "mergeshared "+plist(t)+" "+itoa(k))
+				}
+			}
+		})
 	}
 	if g.Mine() {
 		emit(merges)
@@ -687,6 +740,7 @@ func genC12(g *Gen) {
 			parts[i] = ints(p)
 		}
 		ops = append(ops, "merge "+plist(parts))
+		ops = append(ops, "mergeshared "+plist(parts)+" "+itoa(r.Intn(4)))
 		for i := 0; i < 8; i++ {
 			ops = append(ops, "flatten "+c12RandNest(r, r.Range(1, 4)))
 		}
